@@ -1046,18 +1046,20 @@ parser! {
         elements
       }
     }
-    rule initial_step() -> Step = tok(TokenType::InitialStep) _ name:step_name() _ tok(TokenType::Colon) _ action_associations:action_association() ** (_ tok(TokenType::Semicolon) _) tok(TokenType::EndStep) {
+    rule initial_step() -> Step = tok(TokenType::InitialStep) _ name:step_name() _ tok(TokenType::Colon) _ action_associations:action_associations() tok(TokenType::EndStep) {
       Step{
         name,
         action_associations,
        }
     }
-    rule step() -> ElementKind = tok(TokenType::Step) _ name:step_name() _ tok(TokenType::Colon) _ action_associations:semisep(<action_association()>) _ tok(TokenType::EndStep) {
+    rule step() -> ElementKind = tok(TokenType::Step) _ name:step_name() _ tok(TokenType::Colon) _ action_associations:action_associations() tok(TokenType::EndStep) {
       ElementKind::step(
         name,
         action_associations
       )
     }
+    // Zero or more action associations, each terminated by a semicolon
+    rule action_associations() -> Vec<ActionAssociation> = associations:(a:action_association() _ tok(TokenType::Semicolon) _ { a })* { associations }
     rule step_name() -> Id = identifier()
     rule action_association() -> ActionAssociation = name:action_name() _ tok(TokenType::LeftParen) _ qualifier:action_qualifier()? _ indicators:(tok(TokenType::Comma) _ i:indicator_name() ** (_ tok(TokenType::Comma) _) { i })? _ tok(TokenType::RightParen) {
       ActionAssociation {
